@@ -56,6 +56,10 @@ pub fn run(out: &mut Out, tier: &str, rng: &mut Rng) {
         // whole
         sess::run_case(out, &inst, "sess", &[Ev::Bytes(stream.clone())], nf >= 2);
         out.count("segmentation whole");
+        // whole, with a peer that is already gone (every reply write fails): dispatching must not depend on it
+        if i % 3 == 0 {
+            sess::run_case_wfail(out, &inst, "sess", &[Ev::Bytes(stream.clone())], nf >= 2);
+        }
         // byte by byte (skip for the 1 KiB payloads in the quick tier)
         if !big || thorough && i % 10 == 0 {
             let cuts: Vec<usize> = (1..stream.len()).collect();
